@@ -3,6 +3,7 @@ from __future__ import annotations
 import itertools, json, math
 import numpy as np
 from .. import core, gen
+from . import c18_big
 
 ID = 'C18'
 LEVEL = 'proof'
@@ -10,7 +11,12 @@ RULE = ('corpus; structured random float64 arrays of 1-3 dimensions (axis length
         'random values) x orders 1-4 x six border modes x prefilter on/off x seven memory layouts; shifts per axis from '
         '{zero, integer, k/8, negative, larger than the array, arbitrary}; zoom by explicit target shape '
         '({1,2,n,2n-1,2n,random}) or by factor; spline_filter / spline_filter1d; imresize / resize_to / resize_rgb_to; '
-        'invalid out buffers. Non-trivial = the result differs from the input or has another shape; '
+        'invalid out buffers; zoom output shapes for 1500 factor vectors (ties k/s and their float neighbours, tiny, large, '
+        'negative, non-finite, integer, scalar/sequence, wrong length); resize_to on integer images (7 dtypes); '
+        'a size-threshold stream (tag size=threshold: 5 cases per quick run whose line length crosses 2^8, 2^15, 2^16 +-1, '
+        'a 257x256 image; thorough: lines of 65537 / 70001 samples in both orientations and 2^24+1 elements) judged by an '
+        'exact O(N) numpy oracle (translation with the border rule, identity, separable linear interpolation, integer-'
+        'weight B-spline expansion) whose agreement with the Lean driver is checked on small twins (size=small). Non-trivial = the result differs from the input or has another shape; '
         'distinct = distinct protocol line + layout.')
 ASSUMPTIONS = [
     'float64 data, finite, |values| <= 1e3; sizes < 2^31',
@@ -34,6 +40,8 @@ TOL = 1e-9
 
 
 def _arr(case):
+    if case.get('kind') == 'big':
+        return c18_big.data(case['shape'])
     return np.array(case['data'], dtype=np.float64).reshape(case['shape'])
 
 
@@ -56,6 +64,55 @@ def _cut_truncated(order, n):
              4: [math.sqrt(664.0 - math.sqrt(438976.0)) + math.sqrt(304.0) - 19.0,
                  math.sqrt(664.0 + math.sqrt(438976.0)) - math.sqrt(304.0) - 19.0]}.get(order, [])
     return n > 1 and any(math.ceil(math.log(1e-15) / math.log(abs(p))) < n for p in poles)
+
+
+NP_DT = {'u8': np.uint8, 'i8': np.int8, 'u16': np.uint16, 'i16': np.int16, 'u32': np.uint32, 'i32': np.int32,
+         'i64': np.int64}
+
+
+def _is_int(x):
+    return isinstance(x, int) and not isinstance(x, bool)
+
+
+def _factor_args(fac):
+    """protocol keys for a zoom factor: Python ints (-> an int64 array, exact products) or floats; scalar or sequence"""
+    scalar = not isinstance(fac, (list, tuple))
+    v = [fac] if scalar else list(fac)
+    if v and all(_is_int(x) for x in v):
+        return f" ifactor={','.join(str(x) for x in v)} scalar={int(scalar)}"
+    return f" factor={core.fmt_floats(np.array(v, np.float64))} scalar={int(scalar)}"
+
+
+def _py_want(shape, fac):
+    """int(s*z) per axis as the wrapper documents it (None: raises)"""
+    v = list(fac) if isinstance(fac, (list, tuple)) else [fac] * len(shape)
+    if len(v) != len(shape):
+        return None
+    try:
+        if all(_is_int(x) for x in v):
+            w = [int(s * z) for s, z in zip(shape, v)]
+        else:
+            w = [int(s * z) for s, z in zip(shape, np.array(v, np.float64))]
+    except (ValueError, OverflowError):
+        return None
+    return None if any(x < 0 for x in w) else w
+
+
+def _factor_class(shape, fac):
+    v = list(fac) if isinstance(fac, (list, tuple)) else [fac]
+    if all(_is_int(x) for x in v):
+        return 'int'
+    a = np.array(v, np.float64)
+    if not np.all(np.isfinite(a)):
+        return 'nonfinite'
+    if np.any(a < 0):
+        return 'negative'
+    prod = [s * z for s in shape for z in a]
+    if any(p == np.floor(p) for p in prod):
+        return 'exact'
+    if any(abs(p - np.round(p)) < 1e-9 * max(1.0, abs(p)) for p in prod):
+        return 'near-tie'
+    return 'generic'
 
 
 # ------------------------------------------------------------------------------------------------
@@ -98,6 +155,11 @@ def _run_impl(case):
                 r['is_out'] = r['out'] is o
             else:
                 r['out'] = ip.zoom(Al, case['factor'], **kw)
+        elif k == 'big':
+            r['out'] = c18_big.run(case, Al)
+        elif k == 'zshape':
+            fac = case['factor']
+            r['out'] = ip.zoom(Al, tuple(fac) if isinstance(fac, list) and case.get('astuple') else fac, order=1)
         elif k == 'sf':
             if case.get('axis') is None:
                 r['out'] = ip.spline_filter(Al, case['order'])
@@ -112,6 +174,11 @@ def _run_impl(case):
                 r['out'] = mh.imresize(Al, case['factor'], order=case['order'])
             elif f == 'resize_to':
                 r['out'] = mh.resize_to(Al, case['nsize'], order=case['order'])
+            elif f == 'resize_to_int':
+                Ai = Al.astype(NP_DT[case['dtype']])
+                keep = Ai.copy()
+                r['out'] = mh.resize_to(Ai, case['nsize'], order=case['order'])
+                r['int_input_modified'] = not np.array_equal(keep, Ai)
             elif f == 'resize_rgb_to':
                 from mahotas import resize as _rs
                 r['out'] = _rs.resize_rgb_to(Al, case['nsize'], order=case['order'])
@@ -188,6 +255,25 @@ def evaluate(cases):
     lines, owner = [], []
     for ci, (c, r) in enumerate(zip(cases, impl)):
         k = c['kind']
+        if k == 'zshape':
+            lines.append(f"c18 kind=osh shape={gen.enc_shape(c['shape'])}" + _factor_args(c['factor']))
+            owner.append((ci, 'osh'))
+            continue
+        if k == 'big':
+            if c.get('small') and 'raised' not in r:
+                A = _arr(c)
+                flat = [float(x) for x in A.ravel().tolist()]
+                if c['op'] == 'shift':
+                    ps = dict(kind='shift', shape=c['shape'], data=flat, order=c['order'], mode=c['mode'], shift=c['shift'])
+                    lines.append(_zs_line(ps)); owner.append((ci, 'zs'))
+                elif c['op'] == 'sf':
+                    lines.append(f"c18 kind=bs shape={gen.enc_shape(c['shape'])} data={core.fmt_floats(r['out'])} order={c['order']}")
+                    owner.append((ci, 'bs'))
+                else:
+                    ps = dict(kind='zoom', shape=c['shape'], data=flat, order=c['order'], mode=c.get('mode', 'constant'),
+                              _oshape=list(r['out'].shape))
+                    lines.append(_zs_line(ps)); owner.append((ci, 'zs'))
+            continue
         if 'raised' in r:
             continue
         if k in ('shift', 'zoom'):
@@ -197,6 +283,9 @@ def evaluate(cases):
                 z = np.broadcast_to(np.asarray(c['factor'], np.float64), (len(c['shape']),))
                 c['_want'] = [int(s * zz) for s, zz in zip(c['shape'], z)]
             lines.append(_zs_line(c)); owner.append((ci, 'zs'))
+            if k == 'zoom' and c.get('oshape') is None:
+                lines.append(f"c18 kind=osh shape={gen.enc_shape(c['shape'])}" + _factor_args(c['factor']))
+                owner.append((ci, 'osh'))
         elif k == 'sf':
             A = _arr(c)
             if c.get('axis') is None:
@@ -218,6 +307,16 @@ def evaluate(cases):
             lines.append(f"c18 kind=rs name={c['func']} shape={gen.enc_shape(c['shape'])} data={core.fmt_floats(A)} "
                          f"order={c['order']} nsize={gen.enc_shape(c['nsize'])}")
             owner.append((ci, 'rs'))
+        elif k == 'resize' and c['func'] == 'imresize_factor':
+            A = _arr(c)
+            lines.append(f"c18 kind=rs name=imresize_factor shape={gen.enc_shape(c['shape'])} data={core.fmt_floats(A)} "
+                         f"order={c['order']}" + _factor_args(c['factor']))
+            owner.append((ci, 'rs'))
+        elif k == 'resize' and c['func'] == 'resize_to_int':
+            A = _arr(c)
+            lines.append(f"c18 kind=rsi dtype={c['dtype']} shape={gen.enc_shape(c['shape'])} data={core.fmt_floats(A)} "
+                         f"order={c['order']} nsize={gen.enc_shape(c['nsize'])}")
+            owner.append((ci, 'rsi'))
     drvs = core.drive(lines)
     per = {}
     for (ci, what), d in zip(owner, drvs):
@@ -233,7 +332,48 @@ def evaluate(cases):
         tags = dict(kind=k, order=c.get('order'), ndim=len(c['shape']), layout=c.get('layout', 'C'))
         if r.get('input_modified'):
             f.append(dict(kind='property', key=f'{k}:input-modified', detail={}))
-        if 'raised' in r:
+        if k == 'big':
+            # size-threshold stream and its small twins: the O(N) numpy oracle of c18_big (the statement's own checks)
+            tags.update(size='small' if c.get('small') else 'threshold', op=c['op'], mode=c.get('mode'))
+            if 'raised' in r:
+                f.append(dict(kind='property', key=f"big:{c['op']}:raises", detail=dict(error=r['raised'])))
+            else:
+                got = np.asarray(r['out'], np.float64)
+                for key, det in c18_big.judge(c, A, got):
+                    f.append(dict(kind='property', key=key, detail=det))
+                if c.get('small') and ci in per and not f:
+                    # the same expectation from the Lean driver: the oracle agrees with the Lean model
+                    what, d = per[ci][0]
+                    if 'error' in d:
+                        raise core.Infra('driver: ' + str(d))
+                    if what == 'bs':
+                        lean = core.floats(d['spec']).reshape(got.shape)
+                        mine = c18_big.expansion(got, c['order'])
+                    else:
+                        lean = core.floats(d['model']).reshape(got.shape)
+                        mine = got
+                    if lean.size and not (np.abs(lean - mine) <= TOL * sc * 10).all():
+                        i = tuple(int(x[0]) for x in np.nonzero(~(np.abs(lean - mine) <= TOL * sc * 10)))
+                        f.append(dict(kind='model', key=f"big:oracle-vs-lean:{c['op']}",
+                                      detail=dict(pixel=list(i), lean=float(lean[i]), oracle=float(mine[i]))))
+        elif k == 'zshape':
+            # the output shape a factor asks for: real code vs the statement's int(s*z) vs the Lean model (zoomOutShape)
+            d = per[ci][0][1]
+            if 'error' in d:
+                raise core.Infra('driver: ' + str(d))
+            mshape = None if d.get('oshape') == 'none' else \
+                ([int(t) for t in d['oshape'].split(',')] if d.get('oshape') not in ('', '-', None) else [])
+            gshape = None if 'raised' in r else list(r['out'].shape)
+            want = _py_want(c['shape'], c['factor'])
+            tags.update(cls=_factor_class(c['shape'], c['factor']), raises=gshape is None,
+                        seq=isinstance(c['factor'], list))
+            if gshape != want:
+                f.append(dict(kind='property', key='zoom:shape-from-factor', detail=dict(got=gshape, want=want,
+                                                                                          error=r.get('raised'))))
+            elif gshape != mshape:
+                f.append(dict(kind='model', key='zoom-shape-model', detail=dict(got=gshape, model=mshape)))
+            nontrivial = gshape != list(c['shape'])
+        elif 'raised' in r:
             f.append(dict(kind='property', key=f"{k}:raises:{c.get('layout', 'C') if c.get('layout', 'C') != 'C' else c.get('func', c.get('mode', ''))}",
                           detail=dict(error=r['raised'])))
         elif k in ('shift', 'zoom'):
@@ -247,6 +387,12 @@ def evaluate(cases):
             want = c.get('oshape') if k == 'zoom' and c.get('oshape') is not None else c.get('_want', c['shape'])
             if list(got.shape) != list(want):
                 f.append(dict(kind='property', key=f'{k}:shape', detail=dict(got=list(got.shape), want=list(want))))
+            if k == 'zoom' and c.get('oshape') is None and len(per[ci]) > 1:
+                d2 = per[ci][1][1]
+                mshape = None if d2.get('oshape') == 'none' else \
+                    ([int(t) for t in d2['oshape'].split(',')] if d2.get('oshape') not in ('', '-', None) else [])
+                if mshape != list(got.shape) and not f:
+                    f.append(dict(kind='model', key='zoom-shape-model', detail=dict(got=list(got.shape), model=mshape)))
             if k == 'zoom' and c.get('oshape') is not None and not r.get('is_out', True):
                 f.append(dict(kind='property', key='zoom:out-not-returned', detail={}))
             model = core.floats(d['model'])
@@ -326,14 +472,42 @@ def evaluate(cases):
             fn = c['func']
             tags.update(func=fn)
             if fn == 'imresize_factor':
-                z = np.broadcast_to(np.asarray(c['factor'], np.float64), (A.ndim,))
-                want = [int(s * zz) for s, zz in zip(A.shape, z)]
+                want = _py_want(list(A.shape), c['factor'])
             elif fn == 'resize_rgb_to':
                 want = list(c['nsize']) + [3]
             else:
                 want = list(c['nsize'])
             if list(got.shape) != want:
                 f.append(dict(kind='property', key=f'{fn}:shape', detail=dict(got=list(got.shape), want=want)))
+            elif fn == 'resize_to_int':
+                # integer image (outside the statement's quantifier: the interpolated values are truncated toward zero
+                # when they are stored): dtype kept, input untouched, values = the model's cast (resizeToDT) wherever the
+                # float value is not within 1e-7 of an integer (there the truncation is decided by rounding errors)
+                d = per[ci][0][1]
+                if 'error' in d:
+                    raise core.Infra('driver: ' + str(d))
+                tags.update(dtype=c['dtype'])
+                if got.dtype != NP_DT[c['dtype']]:
+                    f.append(dict(kind='property', key='resize_to:dtype', detail=dict(got=str(got.dtype))))
+                elif r.get('int_input_modified'):
+                    f.append(dict(kind='property', key='resize:input-modified', detail={}))
+                elif d.get('shape') in (None, 'none') or [int(t) for t in d['shape'].split(',')] != list(got.shape):
+                    f.append(dict(kind='model', key='resize_to_int-model:shape', detail=dict(got=list(got.shape),
+                                                                                            model=d.get('shape'))))
+                elif got.size:
+                    mv = core.floats(d['model'])
+                    toks = d['cast'].split(',')
+                    okc = np.array([t != 'u' for t in toks])
+                    cv = np.array([int(t) if t != 'u' else 0 for t in toks], dtype=np.int64)
+                    g = got.astype(np.int64).ravel(order='C')
+                    safe = okc & (np.abs(mv - np.round(mv)) > 1e-7 * sc)
+                    tags.update(guarded=int((~safe).sum() > 0))
+                    badm = np.nonzero(safe & (g != cv))[0]
+                    loose = np.nonzero(okc & ~(np.abs(g - mv) < 1 + 1e-7 * sc))[0]
+                    if len(badm) or len(loose):
+                        i = int(badm[0]) if len(badm) else int(loose[0])
+                        f.append(dict(kind='model', key=f'resize_to_int-model:order{c["order"]}',
+                                      detail=dict(pixel=i, got=int(g[i]), cast=int(cv[i]), value=float(mv[i]))))
             elif got.size and A.size:
                 trunc = any(_cut_truncated(c['order'], n) for n in A.shape)
                 ptol = TOL * sc
@@ -347,7 +521,7 @@ def evaluate(cases):
                         break
             # the wrapper model (shape and values; theorems C18_resize_to_shape / C18_imresize_shape /
             # C18_resize_rgb_to_shape speak about it)
-            if ci in per and not any(x['kind'] == 'property' for x in f):
+            if ci in per and fn != 'resize_to_int' and not any(x['kind'] == 'property' for x in f):
                 d = per[ci][0][1]
                 if 'error' in d:
                     raise core.Infra('driver: ' + str(d))
@@ -437,6 +611,53 @@ def _shift_component(rng, n):
     return rng.uniform(-n - 1.0, n + 1.0)
 
 
+def _factor_component(rng, n, floats_only=False):
+    """one zoom factor for an axis of length n: ties (k/n and its float neighbours), simple ratios, tiny, large"""
+    u = rng.random()
+    if u < 0.3:
+        k = rng.randint(0, 3 * n + 1)
+        z = k / n                                   # s*(k/s) is k or k-eps: the int() tie
+        v = rng.random()
+        return z if v < 0.6 else (float(np.nextafter(z, np.inf)) if v < 0.8 else float(np.nextafter(z, -np.inf)))
+    if u < 0.45:
+        return rng.choice([1.0, 2.0, 0.5, 1.5, 3.0, 0.25, 2.5, 1.0 / 3.0, 2.0 / 3.0, 0.1, 0.7])
+    if u < 0.55 and not floats_only:
+        return rng.randint(0, 4)
+    if u < 0.62:
+        return rng.choice([5e-324, 1e-300, 1e-17, 1e-9, 0.0, -0.0])
+    if u < 0.7:
+        return round(rng.uniform(3.0, 40.0), rng.choice([0, 1, 3]))
+    return round(rng.uniform(0.05, 3.0), rng.choice([1, 2, 3, 6]))
+
+
+def _zshape_case(rng):
+    ndim = rng.choice([1, 1, 2, 2, 3])
+    shape = [rng.randint(1, {1: 40, 2: 12, 3: 5}[ndim]) for _ in range(ndim)]
+    u = rng.random()
+    if u < 0.35:
+        fac = _factor_component(rng, rng.choice(shape))
+    elif u < 0.85:
+        fac = [_factor_component(rng, n) for n in shape]
+    elif u < 0.9:
+        fac = [_factor_component(rng, n) for n in shape][: ndim - 1] + ([1.0, 2.0] if rng.random() < 0.5 else [])
+        if len(fac) == 0:
+            fac = [1.0, 1.0]
+    elif u < 0.95:
+        fac = rng.choice([-1.0, -0.5, -0.01, -1e-300, -3, -1])
+        if rng.random() < 0.5:
+            fac = [fac] + [1.0] * (ndim - 1) if not _is_int(fac) else [fac] + [1] * (ndim - 1)
+    else:
+        fac = rng.choice([float('nan'), float('inf'), -float('inf')])
+        if rng.random() < 0.5:
+            fac = [1.0] * (ndim - 1) + [fac]
+    # keep the real call cheap: the product of the output lengths stays small
+    w = _py_want(shape, fac)
+    if w is not None and int(np.prod(w)) > 20000:
+        fac = 1.5
+    return dict(kind='zshape', shape=shape, data=[0.0] * int(np.prod(shape)), order=1, factor=fac, layout='C',
+                astuple=rng.random() < 0.5)
+
+
 def _oshape_component(rng, n):
     return rng.choice([1, 2, n, n, 2 * n - 1, 2 * n, max(1, n // 2), n + 1, rng.randint(1, 2 * n + 2)])
 
@@ -470,27 +691,46 @@ def cases(rng, tier):
             c.update(kind='sf', order=rng.choice([2, 3, 4]))
             c['axis'] = None if rng.random() < 0.6 else rng.randrange(len(shape))
         elif u < 0.97:
-            fn = rng.choice(['imresize', 'imresize', 'resize_to', 'resize_rgb_to', 'imresize_factor'])
+            fn = rng.choice(['imresize', 'imresize', 'resize_to', 'resize_rgb_to', 'imresize_factor', 'resize_to_int'])
             c.update(kind='resize', func=fn)
             if fn == 'resize_rgb_to':
                 shape = [rng.randint(1, 8), rng.randint(1, 8), 3]
                 c.update(shape=shape, data=_values(rng, shape), nsize=[rng.randint(1, 12), rng.randint(1, 12)])
             elif fn == 'imresize_factor':
-                c['factor'] = rng.choice([1.0, 2.0, 0.5, 1.5, round(rng.uniform(0.4, 2.5), 3)])
+                c['factor'] = rng.choice([1.0, 2.0, 0.5, 1.5, round(rng.uniform(0.4, 2.5), 3)]) if rng.random() < 0.5 \
+                    else [_factor_component(rng, n, floats_only=True) for n in shape]
+            elif fn == 'resize_to_int':
+                dt = rng.choice(sorted(NP_DT))
+                lo, hi = (0, 255) if dt[0] == 'u' else (-128, 127)
+                if rng.random() < 0.5:
+                    lo, hi = max(lo, -9), min(hi, 9)
+                c.update(dtype=dt, data=[float(rng.randint(lo, hi)) for _ in range(int(np.prod(shape)))],
+                         nsize=[rng.randint(1, 2 * n + 2) for n in shape], layout='C')
             else:
                 if rng.random() < 0.3:     # the n/s round trip: many sizes truncate
                     shape = [rng.randint(2, 60)]
                     c.update(shape=shape, data=_values(rng, shape), order=rng.choice([1, 3]))
                 c['nsize'] = [rng.randint(1, 2 * n + 2) for n in c['shape']]
                 c['astuple'] = rng.random() < 0.7
-        else:
+        elif u < 0.985 or tier == 'search':
             c.update(kind='badout', bad=rng.choice(['strided', 'fortran', 'readonly']),
                      oshape=[_oshape_component(rng, n) for n in shape])
+        else:
+            c = _zshape_case(rng)
         out.append(c)
+    if tier != 'search':
+        # the output shape of zoom-by-factor: a block of cheap shape-only cases (ties k/s, tiny, large, negative,
+        # non-finite, integer factors, scalars and sequences, wrong lengths)
+        for i in range(dict(quick=1500, thorough=30000)[tier]):
+            out.append(_zshape_case(rng))
+    # size-threshold stream (line lengths / element counts across 2^8, 2^15, 2^16; thorough: > 65536 and 2^24+1)
+    out.extend(c18_big.cases(rng, tier))
     return out
 
 
 def shrink(case):
+    if case.get('kind') == 'big':
+        return
     shape = case['shape']
     A = _arr(case)
     for ax in range(len(shape)):
